@@ -30,8 +30,8 @@ class Repo:
         if roots is None:
             roots = [(REPO, 'pgpy'), (VERIF, 'specs')]
         if rewrite is None and os.environ.get('PYVC_MUTATE'):
-            # testing aid (mutant gate): 'module::old text::new text' applied to the source text in memory only
-            mmod, mold, mnew = os.environ['PYVC_MUTATE'].split('::')
+            # testing aid (mutant gate): 'module@@old text@@new text' applied to the source text in memory only
+            mmod, mold, mnew = os.environ['PYVC_MUTATE'].split('@@')
 
             def rewrite(rel, src, mmod=mmod, mold=mold, mnew=mnew):
                 if rel == mmod:
@@ -284,8 +284,16 @@ class VDict(V):
 
 
 class VSet(V):
-    def __init__(self, items):
+    """set of concrete members; `conds[i]` (optional) is the symbolic condition under which items[i] is present"""
+    def __init__(self, items, conds=None):
         self.items = list(items)
+        self.conds = conds
+
+
+class VCtx(V):
+    """value returned by a context-manager contract: `value` is bound by `as`, on_exit(ex, st, control) runs at scope end"""
+    def __init__(self, value, on_exit=None):
+        self.value, self.on_exit = value, on_exit
 
 
 class VObj(V):
@@ -575,6 +583,8 @@ class Exec:
             return z3.Length(self.seq(v, st)) > 0
         if isinstance(v, VStr):
             return z3.BoolVal(bool(v.s)) if v.s is not None else z3.Length(v.z) > 0
+        if isinstance(v, VSet) and v.conds is not None:
+            return z3.Or(*v.conds) if v.conds else z3.BoolVal(False)
         if isinstance(v, (VTuple, VList, VSet)):
             return z3.BoolVal(len(self.items(v, st)) > 0)
         if isinstance(v, VDict):
@@ -969,8 +979,15 @@ class Exec:
         if isinstance(l, VStr) and isinstance(op, ast.Mod):
             return [(st, VStr(s='<fmt>'))]
         if isinstance(l, VSet) and isinstance(r, VSet) and isinstance(op, (ast.BitOr, ast.BitAnd, ast.Sub)):
-            if isinstance(op, ast.BitOr):
+            if isinstance(op, ast.BitOr) and l.conds is None and r.conds is None:
                 return [(st, VSet(l.items + r.items))]
+            if isinstance(op, ast.BitAnd):
+                conds = []
+                for i, a in enumerate(l.items):
+                    inr = [z3.And(self.eq(a, b, st), r.conds[j] if r.conds else z3.BoolVal(True)) for j, b in enumerate(r.items)]
+                    c = z3.Or(*inr) if inr else z3.BoolVal(False)
+                    conds.append(z3.And(c, l.conds[i]) if l.conds else c)
+                return [(st, VSet(l.items, conds))]
             raise ToolLimit('set operator %s' % type(op).__name__)
         if isinstance(l, (VList, VTuple)) and isinstance(r, (VList, VTuple)) and isinstance(op, ast.Add):
             its = self.items(l, st) + self.items(r, st)
@@ -1350,7 +1367,13 @@ class Exec:
                                 nxt.append((s3, v))
                                 continue
                             d = dict(acc)
-                            d[kw.arg] = v
+                            if kw.arg is None:
+                                if not isinstance(v, VDict) or not all(isinstance(k, VStr) and isinstance(k.s, str) for k, _ in v.pairs):
+                                    raise ToolLimit('** expansion of a non-literal mapping')
+                                for k, x in v.pairs:
+                                    d[k.s] = x
+                            else:
+                                d[kw.arg] = v
                             nxt.append((s3, d))
                     kwsets = nxt
                 for s2, kws in kwsets:
@@ -1407,16 +1430,35 @@ class Exec:
             argv = [f.self_val] + argv
         defaults = node.args.defaults
         dstart = len(params) - len(defaults)
+        used = set()
         for i, p in enumerate(params):
             if i < len(argv):
                 vars_[p] = argv[i]
             elif p in kws:
                 vars_[p] = kws[p]
+                used.add(p)
             elif i >= dstart:
                 r = self.ev(defaults[i - dstart], st.new_env(None), st, {'mod': mod})
                 vars_[p] = r[0][1]
             else:
                 raise ToolLimit('missing arg %s for %s' % (p, node.name))
+        for a, dflt in zip(node.args.kwonlyargs, node.args.kw_defaults):
+            if a.arg in kws:
+                vars_[a.arg] = kws[a.arg]
+                used.add(a.arg)
+            elif dflt is not None:
+                vars_[a.arg] = self.ev(dflt, st.new_env(None), st, {'mod': mod})[0][1]
+            else:
+                raise ToolLimit('missing keyword-only arg %s' % a.arg)
+        if node.args.vararg is not None:
+            vars_[node.args.vararg.arg] = VTuple(argv[len(params):])
+        elif len(argv) > len(params):
+            raise ToolLimit('too many positional arguments for %s' % node.name)
+        extra = [(VStr(s=k), v) for k, v in kws.items() if k not in used and k not in params]
+        if node.args.kwarg is not None:
+            vars_[node.args.kwarg.arg] = VDict(extra)
+        elif extra:
+            raise ToolLimit('unexpected keyword argument %s for %s' % (extra[0][0].s, node.name))
         env = st.new_env(f.env, vars_)
         cctx = {'mod': mod, 'cls': f.cls, 'fn': node.name}
         if mod.startswith('specs.') and f.env is None:
@@ -1506,7 +1548,9 @@ class Exec:
     def call_body(self, node, env, st, cctx):
         res = []
         gen = None
-        if self.yield_encoder is None and self.is_generator(node):
+        if self.yield_encoder == 'contextmanager' and getattr(self, 'cm_top', None) is None and self.is_generator(node):
+            self.cm_top = node          # the context-manager function under contract; nested generators are ordinary ones
+        if (self.yield_encoder is None or (self.yield_encoder == 'contextmanager' and node is not self.cm_top)) and self.is_generator(node):
             gen = 'gen!%d' % next(_fresh)
             st.heap[gen] = ()
             cctx = dict(cctx, gen=gen)
@@ -1699,6 +1743,11 @@ class Exec:
                 return [(st, self.new_list(st, self.items(A[0], st)))]
             if name == 'iter':
                 return [(st, A[0])]
+            if name == 'next':
+                its = self.iter_items(A[0], st)
+                if its:
+                    return [(st, its[0])]
+                return [(st, A[1] if len(A) > 1 else Raise('StopIteration', getattr(n, 'lineno', None)))]
             if name == 'super':
                 return [(st, VBuiltin('superobj', bound=(A[0], A[1]) if A else None))]
             if name == 'hashlib.new':
@@ -1749,6 +1798,8 @@ class Exec:
             if name == 'tuple':
                 return [(st, VTuple(self.iter_items(A[0], st)))]
             if name == 'set':
+                if A and isinstance(A[0], VSet):
+                    return [(st, A[0])]
                 return [(st, VSet(self.iter_items(A[0], st) if A else []))]
             if name.split('.')[0] in EXTERNAL_ROOTS:
                 hk = self.hooks.get(('ext', name))
@@ -1835,6 +1886,8 @@ class Exec:
             return [(st, VStr(z=t))]
         if isinstance(b, VStr) and name in ('upper', 'lower') and isinstance(b.s, str):
             return [(st, VStr(s=getattr(b.s, name)()))]
+        if isinstance(b, VStr) and name == 'join':
+            return [(st, VStr(s='<fmt>'))]
         if isinstance(b, VStr) and name == 'format':
             return [(st, VStr(s='<fmt>'))]
         if isinstance(b, VStr) and name == 'join' and b.s is not None and False:
@@ -1871,6 +1924,19 @@ class Exec:
                 return out
         if isinstance(b, VDict) and name == 'values':
             return [(st, VTuple([v for _, v in b.pairs]))]
+        if isinstance(b, VDict) and name in ('pop', 'get'):
+            k = A[0]
+            for i, (kk, vv) in enumerate(b.pairs):
+                e = z3.simplify(self.eq(kk, k, st))
+                if z3.is_true(e):
+                    if name == 'pop':
+                        del b.pairs[i]
+                    return [(st, vv)]
+                if not z3.is_false(e):
+                    raise ToolLimit('dict.%s with a symbolic key' % name)
+            if len(A) > 1:
+                return [(st, A[1])]
+            return [(st, VNone() if name == 'get' else Raise('KeyError', getattr(n, 'lineno', None)))]
         if isinstance(b, VDict) and name == 'copy':
             return [(st, VDict(list(b.pairs)))]
         if isinstance(b, VDict) and name == 'keys':
@@ -2019,15 +2085,19 @@ class Exec:
 
     def ev_Yield(self, n, env, st, ctx):
         out = []
-        if self.yield_encoder == 'contextmanager':
+        if self.yield_encoder == 'contextmanager' and ctx.get('gen') is None:
             for s, v in self.ev(n.value, env, st, ctx):
+                if isinstance(v, Raise):
+                    out.append((s, v))
+                    continue
+                s.ghost['yielded_value'] = v
                 s2 = s.clone()
                 s.ghost['with_block'] = 'normal'
                 s2.ghost['with_block'] = 'raised'
                 out.append((s, VNone()))
                 out.append((s2, Raise('BlockException', n.lineno)))
             return out
-        if self.yield_encoder is None:
+        if self.yield_encoder is None or ctx.get('gen') is not None:
             cell = ctx.get('gen')
             if cell is None:
                 raise ToolLimit('yield outside a generator frame')
@@ -2076,6 +2146,12 @@ class Exec:
         for a in n.names:
             st.envs[env.eid][(a.asname or a.name).split('.')[0]] = VModule(a.name) if a.name in self.repo.modules else VBuiltin(a.name)
         return [(st, Next())]
+
+    def st_Break(self, n, env, st, ctx):
+        return [(st, Brk())]
+
+    def st_Continue(self, n, env, st, ctx):
+        return [(st, Cont())]
 
     def st_Pass(self, n, env, st, ctx):
         return [(st, Next())]
@@ -2271,7 +2347,12 @@ class Exec:
     def st_For(self, n, env, st, ctx):
         out = []
         for s, it in self.ev(n.iter, env, st, ctx):
+            if isinstance(it, Raise):
+                out.append((s, it))
+                continue
             if isinstance(it, VSeqObj):
+                if n.orelse:
+                    raise ToolLimit('for/else over an abstract sequence')
                 out += self.for_invariant(n, it, env, s, ctx)
                 continue
             items = self.iter_items(it, s)
@@ -2292,7 +2373,30 @@ class Exec:
                             nxt.append((s2, c2))
                 outs = nxt
             for s1, c in outs:
-                out.append((s1, Next() if isinstance(c, Brk) else c))
+                if isinstance(c, Next) and n.orelse:
+                    out += self.block(n.orelse, env, s1, ctx)      # loop ran to completion: else clause
+                else:
+                    out.append((s1, Next() if isinstance(c, Brk) else c))
+        return out
+
+    def st_With(self, n, env, st, ctx):
+        """`with` on a context manager given by its contract (a hook returning VCtx)"""
+        if len(n.items) != 1:
+            raise ToolLimit('with several items')
+        item = n.items[0]
+        out = []
+        for s, cm in self.ev(item.context_expr, env, st, ctx):
+            if isinstance(cm, Raise):
+                out.append((s, cm))
+                continue
+            if not isinstance(cm, VCtx):
+                raise ToolLimit('with on a context manager without contract')
+            if item.optional_vars is not None:
+                self.assign_target(item.optional_vars, cm.value, env, s, ctx)
+            for s2, c2 in self.block(n.body, env, s, ctx):
+                if cm.on_exit is not None:
+                    cm.on_exit(self, s2, c2)
+                out.append((s2, c2))
         return out
 
 
